@@ -109,6 +109,8 @@ fn units() -> Vec<Unit> {
             }
             v.push(Unit::Switch { colon, kind, word: vec![Inner::Lit("b c")], quoted: true });
             v.push(Unit::Switch { colon, kind, word: vec![Inner::VarY], quoted: true });
+            // a nested pair of double quotes inside the outer ones
+            v.push(Unit::Switch { colon, kind, word: vec![Inner::Dq("b c")], quoted: true });
         }
     }
     for op in ["#", "##", "%", "%%"] {
@@ -626,7 +628,30 @@ pub fn run(tier: Tier) -> i32 {
             if involved {
                 nontrivial.fetch_add(1, Relaxed);
             }
-            let ok = judge(&ctx, w, &text, cfg, &exp, &got, "expand_words");
+            let mut ok = judge(&ctx, w, &text, cfg, &exp, &got, "expand_words");
+            // adjacent double-quoted units may share one pair of quotes (`"A""B"` = `"AB"`): the same
+            // fields must result when a nested quote, `$*`, `$@` … sit inside the same outer quotes
+            if ok && w.len() >= 2 {
+                let parts: Vec<String> = w.iter().map(|u| u.text()).collect();
+                // (`""` itself is left alone: merged it vanishes, and with it the empty field it stands for)
+                let mergeable = !parts.iter().any(|p| p == "\"\"")
+                    && parts.windows(2).any(|p| p[0].len() >= 2 && p[0].starts_with('"') && p[0].ends_with('"') && p[1].len() >= 2 && p[1].starts_with('"') && p[1].ends_with('"'));
+                if mergeable {
+                    let mut merged = String::new();
+                    for (i, p) in parts.iter().enumerate() {
+                        let dq = |s: &String| s.len() >= 2 && s.starts_with('"') && s.ends_with('"');
+                        let join_prev = i > 0 && dq(&parts[i - 1]) && dq(p);
+                        let join_next = i + 1 < parts.len() && dq(p) && dq(&parts[i + 1]);
+                        let start = if join_prev { 1 } else { 0 };
+                        let end = if join_next { p.len() - 1 } else { p.len() };
+                        merged.push_str(&p[start..end]);
+                    }
+                    set_x(&mut env, cfg);
+                    let got2 = run_real(&mut env, &merged);
+                    evals.fetch_add(1, Relaxed);
+                    ok = judge(&ctx, w, &merged, cfg, &exp, &got2, "expand_words (shared quotes)");
+                }
+            }
             // every 192nd (thorough: 48th) case also end-to-end through the whole shell
             if ok && (ci * 31 + wi) % tier.pick(192, 48) == 0 {
                 if let Outcome::Fields(ef, _) = &exp {
